@@ -43,6 +43,10 @@ inductive Policy where
       -- lives in the same object. `exempt`: functions that only ever see private snapshots /
       -- run in the single-threaded start-up phase.
   | confined                                   -- objects of the type are used by one goroutine
+  | initOnly (writers : List String)
+      -- package-level variable written only by `writers`, which run during package initialisation
+      -- (init functions and what only they call): initialisation happens before `main` starts,
+      -- so every later read is ordered after every write
   deriving Repr
 
 def Access.holds (a : Access) (cls : String) (self needW : Bool) : Bool :=
@@ -54,6 +58,7 @@ def Access.ok (pol : String → String → Policy) (a : Access) : Bool :=
   | .immutable => a.kind == "R"
   | .atomic => a.kind == "A"
   | .confined => true
+  | .initOnly ws => a.kind == "R" || ws.contains a.func
   | .guarded c s ex =>
     ex.contains a.func ||
     (if a.kind == "W" then a.holds c s true else if a.kind == "R" then a.holds c s false else false)
